@@ -24,7 +24,7 @@ PROPS = {
                         "AppendedAt is projected to the instant (seconds, nanoseconds); nil and empty byte slices are identified",
                         "batchSize is a mathematical integer in the model (Go int does not overflow below 2^63 bytes of log data)",
                         "StableStore: byte and uint64 key spaces are disjoint; a key never set and an empty value are identified in the destination; what a source does for a key never set is a parameter of the model (InmemStore: Get fails; raft-boltdb: Get and GetUint64 fail; WAL: neither fails)"],
-        "rule": "seeded generator: 9 store pairings x source length 0..80 (thorough ..400) x first index (1, small, 2^(7k), last = MaxUint64-1) x batchBytes (0, 1, negative, MinInt64, MaxInt64, around 1..4 entries, around the whole log) x cancellation point x injected GetLog/StoreLogs failure x nil/buffered/unbuffered progress channel; CopyStable over 9 pairings x missing keys x extra keys x cancellation; distinct = distinct input lines",
+        "rule": "seeded generator: 9 store pairings x source length 0..80 (thorough ..400) x first index (1, small, 2^(7k), last = MaxUint64-1) x batchBytes (0, 1, negative, MinInt64, MaxInt64, around 1..4 entries, around the whole log) x cancellation point x injected GetLog/StoreLogs failure x source FirstIndex/LastIndex failure (injected, and a really closed WAL / raft-boltdb source; every pairing) x nil/buffered/unbuffered progress channel; CopyStable over 9 pairings x missing keys x extra keys x cancellation; distinct = distinct input lines",
     },
     "C07": {
         "streams": [S("fstrace", 40, 400, vm=(8, 40), vm_maxlen=40000, timeout=3000)],
